@@ -247,6 +247,15 @@ def check(case):
             obj = t if obj is None else obj + t
         P = Problem().minimize(obj)
         P.subject_to(con)
+        # further constraints of both inequality senses after it: a sign or closure shared between constraints shows
+        first = objs[allv[0]]
+        if case["tol"] == 1e-8:
+            P.subject_to(first >= -100.0)
+            P.subject_to(first <= 100.0)
+        else:
+            P.subject_to(first <= 100.0)
+            P.subject_to(first >= -100.0)
+        n_extra = 2
         try:
             with seams.minimize_capture() as cap:
                 P.solve(method="SLSQP", maxiter=1)
@@ -255,6 +264,9 @@ def check(case):
         if not cap.calls:
             return Result.violation("solver-not-called", desc, classes)
         dicts = list(cap.calls[0].get("constraints") or ())
+        if len(dicts) != n_el + n_extra:
+            return Result.violation("solver-constraint-count", f"{desc}: {len(dicts)} dicts for {n_el}+{n_extra} constraints", classes)
+        dicts = dicts[:n_el]
         if len(dicts) != n_el:
             return Result.violation("solver-constraint-count", f"{desc}: {len(dicts)} dicts for {n_el} elements", classes)
         order = [v.name for v in P.variables]
